@@ -19,6 +19,12 @@ def _sgn(rng):
 
 
 def _spd(rng, D):
+    if rng.uniform() < 0.5 and D >= 2:
+        # strongly coupled: equal diagonal, off-diagonals close to the positive-definiteness limit (any over-counting of the mixed terms makes it indefinite)
+        rho = _u(rng, 0.7, 0.95) / (D - 1)
+        A = np.full((D, D), rho) + (1 - rho) * np.eye(D)
+        sgn = rng.choice([-1.0, 1.0], size=D)
+        return (A * np.outer(sgn, sgn) * _u(rng, 0.005, 0.05)).tolist()
     A = rng.normal(size=(D, D))
     A = A @ A.T / D + 0.2 * np.eye(D)
     return (A * 0.05).tolist()
